@@ -8,10 +8,13 @@ from ..errors import ErrorClass
 _SQLSTATE_RE = re.compile(r"\[([0-9A-Z]{5})\]")
 
 
-def _extract_sqlstate(args: Iterable[object]) -> str | None:
+def _extract_sqlstate(args: object) -> str | None:
     """
     Try to pull a 5-character SQLSTATE (e.g., HYT00, 40001) out of pyodbc args.
     """
+    if not isinstance(args, Iterable):
+        # e.g. an exception type with its own non-tuple ``args`` attribute
+        return None
     for arg in args:
         if isinstance(arg, str):
             match = _SQLSTATE_RE.search(arg)
